@@ -151,7 +151,11 @@ class Multiply(Contract):
             l1 = ctx.forall_range(0, M, lambda t: z3.Implies(z3.And(0 <= usi(t), usi(t) < x1.N, 0 <= usj(t), usj(t) < x2.N,
                                                                    upos(usi(t), usj(t)) == t), seen.has(t)))
             l2 = ctx.forall_range(0, M, lambda t: seen.has(t))
-            return [("a_field_whose_witness_pair_exists_was_seen", l1), ("every_field_was_seen", l2)]
+            # (the postcondition in the form it is needed after the loop: proved here, in the small context of the loop exit)
+            p, A, S = g["out"], g["A"], g["S"]
+            l3 = ctx.forall_range(0, M, lambda t: ctx.forall_idx(lambda idx: z3.And(p.init(t, idx), p.C(t, idx) == A(t, x1.N, 0, idx)), S))
+            return [("a_field_whose_witness_pair_exists_was_seen", l1), ("every_field_was_seen", l2),
+                    ("every_field_written_with_its_convolution_sum", l3)]
         return {1: LoopSpec(outer_inv, outer_havoc, modifies=("expon1", "coeff1", "expon2", "coeff2", "key"), exit_lemmas=outer_exit),
                 2: LoopSpec(inner_inv, inner_havoc, modifies=("expon2", "coeff2", "key"))}
 
